@@ -466,6 +466,13 @@ func runWorker(p Property, cfg Config, tier string, shard, nshards int, deadline
 			if len(l) < 2 {
 				continue
 			}
+			if d := os.Getenv("VERIF_DEBUG_V"); d != "" && d != "1" && strings.Contains(only, d) {
+				x := l
+				if len(x) > 600 {
+					x = x[:600]
+				}
+				fmt.Fprintf(os.Stderr, "DEBUG-L %s %s\n", cfg.Name, x)
+			}
 			switch l[0] {
 			case 'S':
 				f := strings.SplitN(l[2:], " ", 2)
@@ -477,6 +484,9 @@ func runWorker(p Property, cfg Config, tier string, shard, nshards int, deadline
 				lastStart = time.Now()
 				inCase = true
 				mu.Unlock()
+				if os.Getenv("VERIF_DEBUG_V") != "" {
+					fmt.Fprintf(os.Stderr, "DEBUG-S config=%s %s env=%v\n", cfg.Name, l, cfg.Env)
+				}
 			case 'H':
 				mu.Lock()
 				lastStart = time.Now()
@@ -491,6 +501,9 @@ func runWorker(p Property, cfg Config, tier string, shard, nshards int, deadline
 				var v Violation
 				if json.Unmarshal([]byte(l[2:]), &v) == nil {
 					res.viols = append(res.viols, v)
+					if os.Getenv("VERIF_DEBUG_V") != "" {
+						fmt.Fprintf(os.Stderr, "DEBUG-V config=%s case=%s key=%s\n", v.Config, v.Case, v.Key)
+					}
 				}
 			case 'R':
 				var s Stats
